@@ -56,10 +56,10 @@ Resolve(wd, gopath, goroot, pr) ==
 
 \* ---- filters ---------------------------------------------------------------------
 \* header classes of a file: where the "Code generated ... DO NOT EDIT." line is
-Headers == {"first", "afterLicence", "none", "noDot", "midLine", "afterPackage", "block"}
+Headers == {"first", "afterLicence", "none", "noDot", "midLine", "afterPackage", "afterDecl", "block"}
 \* the convention (go.dev/s/generatedcode): a line comment, the whole line, anywhere before the package clause
 HeaderDoc(h) == CASE h \in {"first", "afterLicence"} -> {TRUE}
-                  [] h \in {"none", "noDot"} -> {FALSE}
+                  [] h \in {"none", "noDot", "afterPackage", "afterDecl"} -> {FALSE}   \* after the clause: not a header
                   [] OTHER -> {TRUE, FALSE}                         \* unconstrained: the statement does not fix these
 \* the code: regexp "Code generated .* DO NOT EDIT." (unanchored) on the text of the FIRST comment group only
 \* (AllComments = TRUE: on every comment group before the package clause)
@@ -68,6 +68,7 @@ HeaderImpl(h) == CASE h = "first" -> TRUE
                    [] h \in {"none", "noDot"} -> FALSE
                    [] h = "midLine" -> TRUE
                    [] h = "afterPackage" -> ~AllComments         \* first group of the file even though it follows the clause
+                   [] h = "afterDecl" -> FALSE                   \* a later declaration's comment quoting the marker
                    [] h = "block" -> TRUE
 SkipDoc(h, isTest, checkTests, checkGen) == { (~checkTests /\ isTest) \/ (~checkGen /\ g) : g \in HeaderDoc(h) }
 SkipImpl(h, isTest, checkTests, checkGen) == (~checkTests /\ isTest) \/ (~checkGen /\ HeaderImpl(h))
